@@ -312,6 +312,12 @@ fn run(ctx: &mut Ctx) -> Verdict {
     if ctx.tape.weighted(&[149, 1]) == 1 {
         return super::c06::truncated_then_closed(ctx);
     }
+    // one run in 150: the real transports - a hostile message among well-formed replies, several of
+    // them arriving in one delivery; nobody may wait for ever and no value may be somebody else's
+    if ctx.tape.weighted(&[149, 1]) == 1 {
+        ctx.count("runs.hostile_message_among_coalesced_replies");
+        return super::c18_rsim::run_mode(ctx, super::c18_rsim::Mode::HostileCoalesced);
+    }
     let target = *ctx.tape.choose(&[Target::Reply, Target::Reply, Target::Hello, Target::Candidates, Target::Installed]);
     match target {
         Target::Candidates | Target::Installed => {
@@ -533,7 +539,7 @@ pub static C14: PropSpec = PropSpec {
     runs: |t| if t == Tier::Thorough { 12_000_000 } else { 120_000 },
     enumerated: |_| 0,
     run,
-    rule: "one run in 150: over the real TLS / SSH / local transport the hello or a reply is cut short at a seeded offset and the peer then closes (every close kind of C07) with 1-3 requests outstanding; every pending and one further call must fail within 5 virtual seconds, a spinning receive loop is caught by the watchdog. Otherwise: a session with 1-4 outstanding get requests (each awaited in its own task, replies in order or permuted); the server hello or the reply to one request is replaced by a mutation of the valid message: truncation at any offset, splice with another message, 1-3 byte flips, duplicated region, huge / negative message-id, invalid UTF-8, wrong namespace, 64 KiB (thorough: 4 MiB) of text, random bytes, empty message, deep nesting, huge numbers, two roots, duplicate attributes, DOCTYPE + comments, the text of one leaf or the value of one attribute replaced by a generated value (0-140 ASCII bytes followed by 0-59 repetitions of a 2-, 3- or 4-byte character, blank, entity or character reference; or a number from 0 to beyond 2^64, negative, signed, in other notations). The request whose reply is mutated is one of get, lock, open-, close-, load- and commit-configuration, and its valid base reply one of that operation's shapes (data, <ok/>, empty, warning, load-configuration-results with a warning and an error count) or a complete <rpc-error> reply, so that every reply reader is reached. The same mutations are applied to running / ephemeral configuration documents fed to the agent's readers. Non-trivial = a mutation was delivered; distinct = distinct event-log hash",
+    rule: "one run in 150: over the real TLS / SSH / local transport 2-4 pipelined requests whose replies, plus one hostile message (not UTF-8, not XML, cut short, empty) at a seeded place, arrive as one byte stream cut at 0-3 seeded positions (so several messages can arrive in one delivery): every call must complete within 5 virtual seconds, a value must be the caller's own reply. one run in 150: over the real TLS / SSH / local transport the hello or a reply is cut short at a seeded offset and the peer then closes (every close kind of C07) with 1-3 requests outstanding; every pending and one further call must fail within 5 virtual seconds, a spinning receive loop is caught by the watchdog. Otherwise: a session with 1-4 outstanding get requests (each awaited in its own task, replies in order or permuted); the server hello or the reply to one request is replaced by a mutation of the valid message: truncation at any offset, splice with another message, 1-3 byte flips, duplicated region, huge / negative message-id, invalid UTF-8, wrong namespace, 64 KiB (thorough: 4 MiB) of text, random bytes, empty message, deep nesting, huge numbers, two roots, duplicate attributes, DOCTYPE + comments, the text of one leaf or the value of one attribute replaced by a generated value (0-140 ASCII bytes followed by 0-59 repetitions of a 2-, 3- or 4-byte character, blank, entity or character reference; or a number from 0 to beyond 2^64, negative, signed, in other notations). The request whose reply is mutated is one of get, lock, open-, close-, load- and commit-configuration, and its valid base reply one of that operation's shapes (data, <ok/>, empty, warning, load-configuration-results with a warning and an error count) or a complete <rpc-error> reply, so that every reply reader is reached. The same mutations are applied to running / ephemeral configuration documents fed to the agent's readers. Non-trivial = a mutation was delivered; distinct = distinct event-log hash",
     components: &[
         ("netconf session + message readers", "real"),
         ("junos-agent policies/fetch.rs readers via the verif facade", "real"),
